@@ -286,6 +286,14 @@ static std::string c10_check(int cm, const unsigned char *key, const Bytes &iv, 
   memcpy(p, in.data(), in.size());
   for (size_t o = 0; o < in.size(); o += 16) e->runcry(p + o);
   memcpy(out.data(), p, in.size());
+  { // the same stream fed through ONE reused, wiped 16-byte block: a stream object must not depend on the caller keeping earlier blocks
+    Aesmode *e2 = f.createCryMaster(true, (u8_t)cm);
+    alignas(16) unsigned char scratch[16];
+    Bytes out2 = in;
+    for (size_t o = 0; o < in.size(); o += 16) { memcpy(scratch, in.data() + o, 16); e2->runcry(scratch); memcpy(out2.data() + o, scratch, 16); memset(scratch, 0xEE, 16); }
+    delete e2;
+    if (out2 != out) return std::string("encrypt-depends-on-callers-buffer:") + MN[cm] + "|" + MN[cm] + " encryptor gives a different stream when every block is passed in the same reused 16-byte buffer (" + what + ")";
+  }
   Bytes exp = in;
   { ref::Stream s(cm, true, key, iv.data()); s.process(exp.data(), exp.size()); }
   delete e;
@@ -295,6 +303,14 @@ static std::string c10_check(int cm, const unsigned char *key, const Bytes &iv, 
   if (!d) return std::string("factory-null:") + MN[cm] + "|no decryptor for mode " + std::to_string(cm);
   for (size_t o = 0; o < in.size(); o += 16) d->runcry(p + o);
   delete d;
+  {
+    Aesmode *d3 = f.createCryMaster(false, (u8_t)cm);
+    alignas(16) unsigned char scratch[16];
+    Bytes back = out;
+    for (size_t o = 0; o < out.size(); o += 16) { memcpy(scratch, out.data() + o, 16); d3->runcry(scratch); memcpy(back.data() + o, scratch, 16); memset(scratch, 0xEE, 16); }
+    delete d3;
+    if (back != in) return std::string("decrypt-depends-on-callers-buffer:") + MN[cm] + "|" + MN[cm] + " decryptor does not restore the plaintext when every block is passed in the same reused 16-byte buffer (" + what + ")";
+  }
   if (memcmp(p, in.data(), in.size()) != 0) return std::string("decrypt-not-inverse:") + MN[cm] + "|" + MN[cm] + " decryptor does not restore the plaintext (" + what + ")";
   // decryptor on arbitrary input vs reference decryption
   Aesmode *d2 = f.createCryMaster(false, (u8_t)cm);
